@@ -199,6 +199,20 @@ func (in *Instance) canon(t *geval.SymType) *geval.SymType {
 
 // TypeExpr renders a symbolic type as a Go type expression over the prelude.
 func (in *Instance) TypeExpr(t *geval.SymType) string {
+	if role := in.basicRep[t.R()]; strings.HasPrefix(role, "assign:") && !t.IsView() {
+		// a reading in which assignable types are distinct: a named array type and its
+		// unnamed underlying type over the class's opaque element type
+		u := "[1]" + in.declOpaque(in.canon(t))
+		if role == "assign:unnamed" {
+			return u
+		}
+		n := fmt.Sprintf("%sA%d", Mark, t.R().ID)
+		if !in.decl["assign:"+n] {
+			in.decl["assign:"+n] = true
+			in.typeDecl = append(in.typeDecl, fmt.Sprintf("type %s %s", n, u))
+		}
+		return n
+	}
 	t = in.canon(t)
 	if in.Path.Preds["derive.IsError("+t.R().Desc+")"] == geval.Yes {
 		return "error" // the generator has established that the type is the error interface
